@@ -235,6 +235,10 @@ func (w *World) loopHead(fr *Frame, st *State, h *ssa.BasicBlock, k int) {
 	}
 	// havoc what the loop may write
 	cells, keys, all := w.loopWrites(fr, fr.loops.body[h])
+	if fr.top && fr.contract != nil && fr.contract.Opts["loopframes"] == "none" {
+		// nothing is claimed about what the loops leave unchanged: every loop head forgets the whole heap
+		all = true
+	}
 	if all {
 		keep := map[string]Term{}
 		framed := map[string]Term{}
@@ -451,6 +455,19 @@ func (w *World) loopDeterminism(fr *Frame, st *State, h *ssa.BasicBlock, k int, 
 	if next == nil || rgI == nil || w.ranges[rgI] == nil {
 		o := w.oblige("loop.det", label, st.cond, tFalse, ls.DetStar, props)
 		o.Result = &SolverResult{Status: "not-a-map-range", Output: "the loop declared deterministic is not a range over a map"}
+		return
+	}
+	sl := collectThenSort(fr.fn, fr.loops.body[h], h)
+	if os.Getenv("GOAVC_DEBUG") != "" {
+		fmt.Fprintf(os.Stderr, "collect-then-sort loop %d of %s: %q\n", k, fr.fn.Name(), sl)
+	}
+	if sl != "" {
+		// proof rule "collect, then sort": the loop only appends to one local slice, which is handed to
+		// sort.Strings / sort.Slice / sort.Sort before anything else reads it: after the sort its contents do
+		// not depend on the order of the iteration (assumed: the sort's result is a function of the elements)
+		o := w.oblige("loop.det", label, st.cond, tTrue, ls.DetStar, props)
+		o.Result = &SolverResult{Status: "unsat", Solver: "rule:collect-then-sort(" + sl + ")"}
+		w.assumption("a slice filled by a range over a map and sorted before its first use does not depend on the iteration order (sort.Strings/sort.Slice with a strict order)")
 		return
 	}
 	rs := w.ranges[rgI]
@@ -1243,4 +1260,132 @@ func (w *World) inModule(f *ssa.Function) bool {
 		return false
 	}
 	return strings.HasPrefix(f.Pkg.Pkg.Path(), modPath)
+}
+
+// collectThenSort recognises the loop shape
+
+//	for k := range m { ks = append(ks, <expr>) }   (possibly under conditions)
+//	sort.Strings(ks) | sort.Slice(ks, ...) | sort.Sort(...(ks))
+//
+// i.e. the only memory the loop body writes is one local slice variable (by append), nothing is called that
+// could observe the order, and the first instruction after the loop that uses the variable is the sort.
+// It returns the name of the slice variable, or "".
+func collectThenSort(fn *ssa.Function, body []*ssa.BasicBlock, head *ssa.BasicBlock) string {
+	in := map[*ssa.BasicBlock]bool{}
+	for _, b := range body {
+		in[b] = true
+	}
+	var target *ssa.Alloc
+	for _, b := range body {
+		for _, ins := range b.Instrs {
+			switch t := ins.(type) {
+			case *ssa.Store:
+				a, ok := t.Addr.(*ssa.Alloc)
+				if !ok {
+					// a store into an object allocated by this iteration (e.g. the argument array of a variadic call)
+					if ra := allocOf(t.Addr); ra != nil && in[ra.Block()] {
+						continue
+					}
+					return ""
+				}
+				if _, isSlice := deref(a.Type()).Underlying().(*types.Slice); isSlice {
+					// the stored value must be append(load(a), ...)
+					c, ok := t.Val.(*ssa.Call)
+					if !ok {
+						return ""
+					}
+					bi, ok := c.Call.Value.(*ssa.Builtin)
+					if !ok || bi.Name() != "append" {
+						return ""
+					}
+					ld, ok := c.Call.Args[0].(*ssa.UnOp)
+					if !ok || ld.X != a {
+						return ""
+					}
+					if target != nil && target != a {
+						return ""
+					}
+					target = a
+					continue
+				}
+				// loop-local scalars (the range key/value copies) are fine when they are allocated in the loop or are plain locals
+				if a.Heap {
+					return ""
+				}
+				if !in[a.Block()] && a != target {
+					// a variable of the enclosing function assigned in the loop: order dependent in general
+					if a.Comment != "rangeindex" {
+						// the key and value variables of the range statement itself are (re)assigned each iteration
+						used := false
+						for _, r := range *a.Referrers() {
+							if _, dbg := r.(*ssa.DebugRef); dbg {
+								continue
+							}
+							if r.Block() != nil && !in[r.Block()] {
+								if _, isStore := r.(*ssa.Store); !isStore {
+									used = true
+								}
+							}
+						}
+						if used {
+							return ""
+						}
+					}
+				}
+			case *ssa.Call:
+				if bi, ok := t.Call.Value.(*ssa.Builtin); ok {
+					switch bi.Name() {
+					case "append", "len", "cap":
+						continue
+					}
+					return ""
+				}
+				// pure string helpers are harmless
+				if f := t.Call.StaticCallee(); f != nil && f.Pkg != nil && f.Pkg.Pkg.Path() == "strings" {
+					continue
+				}
+				return ""
+			case *ssa.MapUpdate, *ssa.Send, *ssa.Go, *ssa.Defer, *ssa.Panic:
+				return ""
+			}
+		}
+	}
+	if target == nil {
+		return ""
+	}
+	// the first use of the slice after the loop must be the sort
+	var exit *ssa.BasicBlock
+	for _, sc := range head.Succs {
+		if !in[sc] {
+			exit = sc
+		}
+	}
+	if exit == nil {
+		return ""
+	}
+	for _, ins := range exit.Instrs {
+		ld, ok := ins.(*ssa.UnOp)
+		if !ok || ld.X != target {
+			continue
+		}
+		for _, r := range *ld.Referrers() {
+			if _, dbg := r.(*ssa.DebugRef); dbg {
+				continue
+			}
+			c, ok := r.(*ssa.Call)
+			if !ok {
+				return ""
+			}
+			f := c.Call.StaticCallee()
+			if f == nil || f.Pkg == nil || f.Pkg.Pkg.Path() != "sort" {
+				return ""
+			}
+			switch f.Name() {
+			case "Strings", "Slice", "SliceStable", "Ints":
+				return target.Comment
+			}
+			return ""
+		}
+	}
+	return ""
 }
